@@ -54,8 +54,6 @@ Proof.
     + intros a w Hin. apply HF. right; exact Hin.
 Qed.
 
-Hint Resolve nf_ok nf_err nf_fuel : nf.
-
 Ltac nf_crush :=
   repeat (first [ apply nf_ok | apply nf_err | apply nf_fuel | apply nf_fault; reflexivity
                 | dmatch ]).
@@ -409,14 +407,48 @@ Proof.
   exists h. split; [reflexivity|lia].
 Qed.
 
-Lemma check_at : forall p c pc e, check p c = true -> lookup c pc = Some e -> check_instr p c pc e = true.
+Lemma build_from_find : forall l k m j,
+  PM.find j (build_from l k m) =
+  if (j <? k)%positive then PM.find j m
+  else match nth_error l (Pos.to_nat j - Pos.to_nat k) with Some b => Some b | None => PM.find j m end.
+Proof.
+  induction l as [|b r IH]; intros k m j; cbn [build_from].
+  - destruct (j <? k)%positive; [reflexivity|]. destruct (Pos.to_nat j - Pos.to_nat k)%nat; reflexivity.
+  - rewrite IH. destruct (j <? Pos.succ k)%positive eqn:E1; destruct (j <? k)%positive eqn:E2.
+    + apply Pos.ltb_lt in E2. rewrite PM.gso by lia. reflexivity.
+    + apply Pos.ltb_lt in E1. apply Pos.ltb_ge in E2. assert (j = k) by lia. subst j.
+      rewrite PM.gss. rewrite Nat.sub_diag. reflexivity.
+    + apply Pos.ltb_ge in E1. apply Pos.ltb_lt in E2. lia.
+    + apply Pos.ltb_ge in E1. apply Pos.ltb_ge in E2.
+      replace (Pos.to_nat j - Pos.to_nat k)%nat with (S (Pos.to_nat j - Pos.to_nat (Pos.succ k))) by lia.
+      cbn [nth_error]. rewrite PM.gso by lia. reflexivity.
+Qed.
+
+Lemma fetch_map_correct : forall p pc, fetch_map (code_map (p_code p)) pc = byte_at p pc.
+Proof.
+  intros p pc. unfold fetch_map, byte_at, code_map. destruct (pc <? 0) eqn:E; [reflexivity|].
+  apply Z.ltb_ge in E. rewrite build_from_find.
+  replace (Z.to_pos (pc + 1) <? 1)%positive with false by (symmetry; apply Pos.ltb_ge; lia).
+  replace (Pos.to_nat (Z.to_pos (pc + 1)) - Pos.to_nat 1)%nat with (Z.to_nat pc) by lia.
+  rewrite PM.gempty. destruct (nth_error (p_code p) (Z.to_nat pc)); reflexivity.
+Qed.
+
+Lemma instr_succs_ext : forall f g len ks pc m h, (forall x, f x = g x) ->
+  instr_succs f len ks pc m h = instr_succs g len ks pc m h.
+Proof. intros f g len ks pc m h H. unfold instr_succs, rd16. rewrite !H. reflexivity. Qed.
+
+Lemma check_at : forall p c pc e, check p c = true -> lookup c pc = Some e ->
+  check_instr (byte_at p) (zlength (p_code p)) (p_consts p) c pc e = true.
 Proof.
   intros p c pc e Hc Hl. pose proof (lookup_nonneg _ _ _ Hl) as Hpc.
-  unfold check in Hc. apply andb_prop in Hc. destruct Hc as [Hc _]. apply andb_prop in Hc. destruct Hc as [Hc _].
+  unfold check in Hc. cbv zeta in Hc.
+  apply andb_prop in Hc. destruct Hc as [Hc _]. apply andb_prop in Hc. destruct Hc as [Hc _].
   rewrite forallb_forall in Hc.
   unfold lookup in Hl. destruct (pc <? 0); [discriminate|].
   apply PM.elements_correct in Hl. specialize (Hc _ Hl). cbv beta iota in Hc.
-  unfold key in Hc. rewrite Z2Pos.id in Hc by lia. replace (pc + 1 - 1) with pc in Hc by lia. exact Hc.
+  unfold key in Hc. rewrite Z2Pos.id in Hc by lia. replace (pc + 1 - 1) with pc in Hc by lia.
+  unfold check_instr in *. destruct e as [m h].
+  rewrite <- (instr_succs_ext _ _ _ _ _ _ _ (fetch_map_correct p)). exact Hc.
 Qed.
 
 Lemma check_consts : forall p c, check p c = true -> vals_ok c (p_consts p).
@@ -530,7 +562,7 @@ Section Step.
     read_u8 p s = Ok (x, upd_ip s (pc + 1)).
   Proof. intros s pc x <- H. unfold read_u8. rewrite H. reflexivity. Qed.
 
-  Lemma read_u16_eq : forall s pc x, v_ip s = pc -> rd16 p pc = Some x ->
+  Lemma read_u16_eq : forall s pc x, v_ip s = pc -> rd16 (byte_at p) pc = Some x ->
     read_u16 p s = Ok (x, upd_ip s (pc + 2)).
   Proof.
     intros s pc x <- H. unfold read_u16. unfold rd16 in H.
@@ -591,7 +623,7 @@ Section Step.
     - unfold zlength. rewrite replace_nth_length. exact Hl.
   Qed.
 
-  Lemma get_const_eq : forall idx, const_in p idx = true -> exists v, get_const p idx = Ok v /\ fval_ok c v.
+  Lemma get_const_eq : forall idx, const_in (p_consts p) idx = true -> exists v, get_const p idx = Ok v /\ fval_ok c v.
   Proof.
     intros idx H. unfold const_in in H. unfold get_const.
     destruct (nth_error (p_consts p) (Z.to_nat idx)) as [v|] eqn:En; [|discriminate].
@@ -639,8 +671,8 @@ Section Step.
   Qed.
 
   Lemma fused_good : forall m s li ci pc' hb, Wf c s ->
-    rd16 p (v_ip s) = Some li -> rd16 p (v_ip s + 2) = Some ci ->
-    0 <= li -> v_bp s + li < v_slen s -> const_in p ci = true ->
+    rd16 (byte_at p) (v_ip s) = Some li -> rd16 (byte_at p) (v_ip s + 2) = Some ci ->
+    0 <= li -> v_bp s + li < v_slen s -> const_in (p_consts p) ci = true ->
     pc' = v_ip s + 4 -> succ_ok c (mode s) pc' hb = true -> hb <= v_slen s - v_bp s + 1 ->
     goodvm (fused orc p m s).
   Proof.
@@ -834,7 +866,7 @@ Section Step.
     end.
   Ltac fused_tac :=
     match goal with
-    | Hsu : succ_ok _ _ ?pc ?hb = true, Hl : rd16 p (v_ip ?s + 1) = Some ?li, Hc : rd16 p (v_ip ?s + 3) = Some ?ci
+    | Hsu : succ_ok _ _ ?pc ?hb = true, Hl : rd16 (byte_at p) (v_ip ?s + 1) = Some ?li, Hc : rd16 (byte_at p) (v_ip ?s + 3) = Some ?ci
       |- goodvm (fused _ _ _ _) =>
         eapply (fused_good _ _ li ci pc hb);
         [assumption | exact Hl
@@ -855,12 +887,12 @@ Section Step.
         rewrite Hpn; cbn [bind]; clear Hpn
     end.
 
-  Lemma step_good : forall s h l, Wf c s -> h <= v_slen s - v_bp s ->
-    instr_succs p (v_ip s) (mode s) h = Some l ->
+  Lemma step_good : forall len s h l, Wf c s -> h <= v_slen s - v_bp s ->
+    instr_succs (byte_at p) len (p_consts p) (v_ip s) (mode s) h = Some l ->
     forallb (fun '(pc', h') => succ_ok c (mode s) pc' h') l = true ->
     good (step orc p s).
   Proof.
-    intros s h l HW Hh Hs Hall.
+    intros len s h l HW Hh Hs Hall.
     pose proof (wf_len _ _ HW) as Hlen. pose proof (wf_bp _ _ HW) as Hbp.
     unfold instr_succs in Hs. unfold step.
     destruct (byte_at p (v_ip s)) as [b|]; [|discriminate Hs].
@@ -873,7 +905,7 @@ Section Step.
       try (apply good_cont); try solve [bin_tac]; try solve [fused_tac]; try solve [push_tac].
     - (* OConst *)
       rd16_tac.
-      match goal with Hc : const_in p ?z = true |- _ => destruct (get_const_eq z Hc) as (v & Hg & Hv) end.
+      match goal with Hc : const_in (p_consts p) ?z = true |- _ => destruct (get_const_eq z Hc) as (v & Hg & Hv) end.
       rewrite Hg; cbn [bind].
       assert (Hpush : goodvm (Ok (push v (upd_ip (upd_ip s (v_ip s + 1)) (v_ip s + 1 + 2))))).
       { land. apply wf_push; [wf_ip|exact Hv]. }
@@ -898,8 +930,8 @@ Section Step.
     - (* OJump *)
       rd16_tac. land. wf_ip.
     - (* OJumpIfFalse *)
-      pop_tac v r Hv Hw'. destruct v; try exact I. rd16_tac.
-      destruct b0; land; wf_ip.
+      pop_tac v r Hv Hw'. destruct v as [|cond| | | | |]; try exact I. rd16_tac.
+      destruct cond; land; wf_ip.
     - (* OReturn *)
       apply (return_good _ VNull (fun s1 => [v_final s1])); [assumption| |exact I].
       match goal with Hm : mode s = true |- _ => exact Hm end.
@@ -1002,8 +1034,9 @@ Theorem verify_sound : forall orc p c, check p c = true ->
 Proof.
   intros orc p c Hc s (HW & Hk & h & Hl & Hh).
   pose proof (check_at _ _ _ _ Hc Hl) as Hci. unfold check_instr in Hci.
-  destruct (instr_succs p (v_ip s) (mode s) h) as [l|] eqn:Hs; [|discriminate Hci].
-  exact (step_good orc p c Hk s h l HW Hh Hs Hci).
+  destruct (instr_succs (byte_at p) (zlength (p_code p)) (p_consts p) (v_ip s) (mode s) h) as [l|] eqn:Hs;
+    [|discriminate Hci].
+  exact (step_good orc p c Hk _ s h l HW Hh Hs Hci).
 Qed.
 
 Theorem run_never_leaves_memory : forall orc p c, check p c = true ->
